@@ -46,6 +46,14 @@ def build_gen(chk, protos):
     return impl, ok
 
 
+def drop_build(exe):
+    """one-off harness builds (shrinking, replay) are not worth keeping in the shared build cache"""
+    try:
+        os.remove(exe)
+    except OSError:
+        pass
+
+
 def build_c2m(chk, protos):
     """harness variant linked with the c2mir unit of the checked tree (mode c2m: C source compiled by c2mir inside the
     harness) plus the gcc-compiled callers/callees of the same prototypes"""
@@ -231,9 +239,12 @@ def c2m_shrink(model, p, vals, rets, dirn, engine):
             return False
         budget[0] -= 1
         impl, ok = build_c2m(None, [p2])
-        if not ok:
-            return False
-        res = c2m_run(impl, model, [(0, p2, v2, rets)], lambda k, d: [engine] if d == dirn else [])
+        try:
+            if not ok:
+                return False
+            res = c2m_run(impl, model, [(0, p2, v2, rets)], lambda k, d: [engine] if d == dirn else [])
+        finally:
+            drop_build(impl)
         return any(bad for _, _, _, _, _, _, bad, _ in res)
     changed = True
     while changed and budget[0] > 0:
@@ -261,13 +272,14 @@ def c2m_stage(chk, model, quick):
         vals, rets = G.gen_values(rng, protos[k])
         items.append((k, protos[k], G.fix_values(protos[k], vals, rng), rets))
     pick = {k: rng.choice(ENGINES_QUICK[1:]) for k in ok}
-
     def engines_of(k, d):
         if not quick:
-            return ENGINES_QUICK
-        if k < ncore:
-            return ENGINES_QUICK if d == 'a' else ['interp', pick[k]]
-        return ['interp', pick[k]] if d == 'a' else [pick[k]]
+            es = ENGINES_QUICK
+        elif k < ncore:
+            es = ENGINES_QUICK if d == 'a' else ['interp', pick[k]]
+        else:
+            es = ['interp', pick[k]] if d == 'a' else [pick[k]]
+        return es
     res = c2m_run(impl, model, items, engines_of)
     found = {}
     for d, k, p, vals, rets, e, bad, m in res:
@@ -477,32 +489,19 @@ def run(chk):
                                 'ocaml/driver_c05.ml (parse + print), harness/c05_probe.c + c05_asm.S (assembly probe), '
                                 'tools/gen_c05_cases.py (MIR text generation, image comparison), GNU as, gcc 12']
     cases = gen_cases(chk, quick)
-    # size-0 blocks (empty struct by value): generated once the tree handles the witness (fixes/C05-6.patch); a tree that
-    # fails the witness although KNOWN_FINDINGS.txt records the fix is reported below like any other failing case
+    # size-0 blocks (empty struct by value; fix C05-6 is in /repo): always generated
     rng0 = chk.rng('size0')
     w0 = dict(args=['i64'] * 7 + ['blk:0'], nfixed=8, vararg=False, res=['i64'], style='boundary')
-    v0, r0 = G.gen_values(rng0, w0)
-    wcase = dict(calls=[dict(proto=w0, vals=v0)], rets=r0, engine='interp')
-    fixed_recorded = False
-    try:
-        fixed_recorded = any(l.startswith('fixed:') and 'property=C05' in l and 'size-0 block' in l
-                             for l in open(os.path.join(vlib.VERIF, 'KNOWN_FINDINGS.txt')))
-    except OSError:
-        pass
-    if not run_cases(impl, model, [wcase])[0][1] or fixed_recorded:
-        protos0 = [w0, dict(args=['blk:0', 'i64'], nfixed=2, vararg=False, res=[], style='boundary'),
-                   dict(args=['i64'] * 6 + ['blk:0', 'i64', 'blk:0', 'd', 'i64'], nfixed=11, vararg=False, res=['d'], style='boundary'),
-                   dict(args=['p', 'i64', 'blk:0', 'd'], nfixed=1, vararg=True, res=[], style='boundary'),
-                   dict(args=['d'] * 9 + ['blk:0', 'd', 'ld'], nfixed=12, vararg=False, res=['ld'], style='boundary')]
-        for p0 in protos0:
-            vv, rr = G.gen_values(rng0, p0)
-            vv = G.fix_values(p0, vv, rng0)
-            for e in ENGINES_QUICK:
-                cases.append(dict(calls=[dict(proto=p0, vals=vv)], rets=rr, engine=e))
-        chk.cov['size0_blocks'] = 'generated'
-    else:
-        chk.cov['size0_blocks'] = 'not generated: the tree fails the witness `i64 x7, blk:0` via interp and no fixed: line records C05-6 yet'
-        chk.log('note: size-0 block arguments not generated (fix C05-6 pending)')
+    protos0 = [w0, dict(args=['blk:0', 'i64'], nfixed=2, vararg=False, res=[], style='boundary'),
+               dict(args=['i64'] * 6 + ['blk:0', 'i64', 'blk:0', 'd', 'i64'], nfixed=11, vararg=False, res=['d'], style='boundary'),
+               dict(args=['p', 'i64', 'blk:0', 'd'], nfixed=1, vararg=True, res=[], style='boundary'),
+               dict(args=['d'] * 9 + ['blk:0', 'd', 'ld'], nfixed=12, vararg=False, res=['ld'], style='boundary')]
+    for p0 in protos0:
+        vv, rr = G.gen_values(rng0, p0)
+        vv = G.fix_values(p0, vv, rng0)
+        for e in ENGINES_QUICK:
+            cases.append(dict(calls=[dict(proto=p0, vals=vv)], rets=rr, engine=e))
+    chk.cov['size0_blocks'] = 'generated'
     for c in cases:
         chk.dist('engine', c['engine'])
         chk.dist('calls_per_context', len(c['calls']))
@@ -604,6 +603,7 @@ def run(chk):
         if p2 is not p:
             impl1, ok1 = build_c2m(chk, [p2])
             res1 = c2m_run(impl1, model, [(0, p2, v2, rets)], lambda kk, dd: [e] if dd == d else [])
+            drop_build(impl1)
             b1 = [x for x in res1 if x[6]]
             if b1:
                 p, vals, bad, m = p2, v2, b1[0][6], b1[0][7]
@@ -676,6 +676,7 @@ def replay(chk, path):
         rets = {k: (bytes.fromhex(v) if isinstance(v, str) else v) for k, v in j['rets'].items()}
         implc, ok = build_c2m(chk, [p])
         res = c2m_run(implc, model, [(0, p, [bytes.fromhex(v) for v in j['vals']], rets)], lambda kk, dd: [e] if dd == d else [])
+        drop_build(implc)
         print('%s, C prototype of %s, engine %s' % (C2M_DIR[d], G.proto_sig(p), e))
         print('mismatches:', [x[6] for x in res if x[6]])
         return 1 if any(x[6] for x in res) else 0
